@@ -175,4 +175,6 @@ Definition chkE13 := chkE_with [1; 2; 3; 4; 5; 6; 11; 12; 13; 14; 21; 22; 23; 24
 Definition chkE09 := chkE_with [2; 4; 5].
 Definition chkE08 := chkE_with [6].
 Definition chkE03 := chkE_with [31; 32; 33; 5; 6].
+(* C11: the address stored and handed out is the request's *)
+Definition chkE11 := chkE_with [13; 22; 31; 33].
 Definition explainE (c : ecase) := run_case c.
